@@ -1,2 +1,4 @@
 //! Reference models: boring, written independently of the code under test.
 pub mod zint;
+pub mod merkle;
+pub mod sponge;
